@@ -5,7 +5,7 @@ the patch, test suite passes with it."""
 import json, os, shutil, subprocess, sys
 src, tid, props, what = sys.argv[1:5]
 def sh(cmd, **kw):
-    return subprocess.run(cmd, shell=True, capture_output=True, text=True, **kw)
+    return subprocess.run(cmd, shell=True, capture_output=True, text=True, errors="replace", **kw)
 assert sh("git -C /repo status --short | grep -v '^??'").stdout.strip() == "", "repo dirty"
 env = "PYTHONPATH=/repo"
 clean = sh(f"cd /repo && {env} /venv/bin/python {src}/demo.py")
